@@ -178,10 +178,10 @@ _masters = {}
 
 
 def master_for(lex):
-    k = id(lex)
-    if k not in _masters or _masters[k][0] is not lex:
-        _masters[k] = (lex, Master(lex))
-    return _masters[k][1]
+    m = lex.__dict__.get('_master')
+    if m is None:
+        m = lex.__dict__['_master'] = Master(lex)
+    return m
 
 
 # ---- ambiguity of unbounded loops (catastrophic backtracking) ------------------------------------------------------------------------
